@@ -393,3 +393,21 @@ func StableDiskImage(dir string, pageSize uint32) (Image, error) {
 	}
 	return prev, err
 }
+
+// SQLiteView is the image a SQLite connection would read on a node whose wal-index LiteFS wrote last
+// (a replica after an apply: DB.updateSHM resets the header, mxFrame = 0): the database file overlaid by
+// the first mxFrame frames of the log, mxFrame taken from the wal-index header in the shm file. ok=false
+// when there is no initialised wal-index (then SQLite would recover the log itself: use DiskImage).
+func SQLiteView(dbDir string, pageSize uint32) (im Image, ok bool, err error) {
+	b, rerr := os.ReadFile(filepath.Join(dbDir, "shm"))
+	if rerr != nil || len(b) < 48 {
+		return Image{}, false, nil
+	}
+	// walIndexHdr: version u32, unused u32, change u32, isInit u8, bigEndCksum u8, pageSize u16, mxFrame u32 (native order)
+	if b[12] == 0 {
+		return Image{}, false, nil
+	}
+	mx := binary.LittleEndian.Uint32(b[16:])
+	im, err = DiskImageUpTo(dbDir, pageSize, int(mx))
+	return im, true, err
+}
